@@ -109,7 +109,17 @@ Print Assumptions C13_reload_before_repair_spacing_refuted.
         over all of them alike, and Corr_C13 ties each source of the real controller to it.
         `Retry i d` is a direct AddAfter(i, d), which the controller uses only to retry after a
         failure (ReloadRetry): `no_retry tr` excludes it from the spacing statements, as the
-        property documents; C13_queue_never_drops covers it. One kind of item: ---- *)
+        property documents; C13_queue_never_drops covers it. `Forget i` is the call of the
+        limiter's Forget that the worker makes after every successful callback (Get ->
+        callback -> Forget or AddRateLimited -> Done): the histories below contain them at any
+        place, and both limiters leave `last` alone (C13_forget_keeps_last; the correspondence
+        compares `last` after every When and every Forget). One kind of item: ---- *)
+
+Theorem C13_forget_keeps_last : forall last now,
+  reload_forget last now = last /\ reconciler_forget last now = last.
+Proof. exact (fun last now => conj eq_refl eq_refl). Qed.
+Print Assumptions C13_forget_keeps_last.
+
 
 Theorem C13_queue_runs_under_single_kind : forall delta wait D,
   0 < delta -> 0 <= wait -> 0 <= D -> D < delta ->
